@@ -509,7 +509,10 @@ func cmdCheck(id, tier string) int {
 	sort.Slice(fresh, func(i, j int) bool { return fresh[i].Index < fresh[j].Index })
 	for n, g := range fresh {
 		if n >= 4 {
-			fmt.Printf("… %d further distinct violation signatures not minimised\n", len(fresh)-n)
+			fmt.Printf("… %d further distinct violation signatures not minimised:\n", len(fresh)-n)
+			for _, h := range fresh[n:] {
+				fmt.Printf("    [run %d, %d×] %s — %s\n", h.Index, h.Count, h.V.SigString(), clip(h.V.Detail, 220))
+			}
 			break
 		}
 		path, status := reportViolation(bin, id, spec.Engine, master, g, tmp)
